@@ -126,6 +126,8 @@ def run(ctx, mod):
     elif broken:
         for b in broken[:5]:
             print("  also: " + b["what"] + (f" [{b.get('failed_at')}]" if b.get("failed_at") else ""))
+            if b.get("detail"):
+                print("    " + str(b["detail"])[:400].replace("\n", "\n    "))
     # 6. evidence
     cov = {"obligations": len(res["theorems"]), "discharged": res["discharged"],
            "obligation_names": res["theorems"],
